@@ -29,6 +29,7 @@ fn dispatch(prop: &str, ctx: &Ctx, replay: Option<&[String]>) -> bool {
     "C08" => p!(c08),
     "C09" => p!(c09),
     "C10" => p!(c10),
+    "C11" => p!(c11),
     "C12" => p!(c12),
     _ => false,
   }
